@@ -97,7 +97,7 @@ def plan_pass(c, rng, j):
 
 
 PASS_SEQ = [(1, 0), (0, 1), (1, 1), (0, 0), (0, 1), (1, 0)]
-GRADS = ["plain", "plain", "plain", "no_grad", "requires_grad", "inference"]
+GRADS = ["plain", "plain", "no_grad", "requires_grad"]
 
 
 def gen_run(rng: random.Random, quick: bool, force=None):
@@ -148,7 +148,9 @@ def gen_run(rng: random.Random, quick: bool, force=None):
     # history, a copy of the filter object taking over for two calls, outputs scribbled over after every call
     c["grad"] = force.get("grad", "mixed")
     c["fail_at"] = force.get("fail_at", rng.choice([None, None, 0, 1, 2]))
-    c["fail_kind"] = force.get("fail_kind", rng.choice(["bad-y", "callback-f", "callback-g", "bad-P"]))
+    c["fail_kind"] = force.get("fail_kind", rng.choice(["callback-f", "callback-g"]))
+    if "fail_skip" in force:
+        c["fail_skip"] = force["fail_skip"]
     c["fork_at"] = force.get("fork_at", rng.choice([None, None, 1, 2]))
     c["fork_kind"] = force.get("fork_kind", rng.choice(["deepcopy", "state_dict"]))
     c.update({kx: force[kx] for kx in ("cond", "scales", "xmag", "diag", "msqrt") if kx in force})
@@ -213,7 +215,35 @@ def corpus_runs(quick: bool):
     for flt in ("ekf", "ukf"):
         specs.append(dict(NICE, filter=flt, n=4, m=1, p=3, dtype="float64", nonlinear=False, T=2, qr_mode="call", t_mode="none",
                           vary_qr=False, cond=1e8, k_seq=[1, 1]))
+    # pass 2 corner corpus: the source of Q and of R chosen independently per call (all four combinations, exactly one of
+    # the two given included), objects storing only one of them, grad modes, positional passing, a user callback that
+    # raises in the middle of the history, a copy of the object taking over
+    for flt in ("ekf", "ukf"):
+        specs.append(dict(NICE, filter=flt, n=3, m=2, p=2, dtype="float64", nonlinear=False, T=6, store="both",
+                          pass_seq=PASS_SEQ, t_mode="none", vary_qr=True, k_seq=[1, "none", 2, 1, "none", 0.5]))
+        specs.append(dict(NICE, filter=flt, n=2, m=1, p=3, dtype="float64", nonlinear=True, T=4, store="both",
+                          pass_seq=PASS_SEQ, t_mode="mixed", vary_qr=False, k_seq=[1, 1, "none", 2]))
+        specs.append(dict(NICE, filter=flt, n=2, m=2, p=2, dtype="float32", nonlinear=False, T=3, store="Q",
+                          pass_seq=[(1, 1), (0, 1), (1, 1)], t_mode="none", vary_qr=False, k_seq=["none", 2, "none"]))
+        specs.append(dict(NICE, filter=flt, n=3, m=1, p=1, dtype="float64", nonlinear=False, T=3, store="R",
+                          pass_seq=[(1, 0), (1, 1), (1, 0)], t_mode="none", vary_qr=False, k_seq=[0.5, "none", 0.5]))
+        for gm in ("no_grad", "requires_grad"):
+            specs.append(dict(NICE, filter=flt, n=2, m=2, p=2, dtype="float64", nonlinear=True, T=2, store="none",
+                              t_mode="none", vary_qr=False, grad=gm, k_seq=[1, "none"]))
+        specs.append(dict(NICE, filter=flt, n=2, m=1, p=2, dtype="float64", nonlinear=True, T=4, store="both",
+                          pass_seq=PASS_SEQ, t_mode="none", vary_qr=False, fail_at=1, fail_kind="callback-g", fail_skip=2,
+                          fork_at=2, fork_kind="deepcopy", k_seq=[1, 2, "none", 1]))
+        specs.append(dict(NICE, filter=flt, n=3, m=2, p=2, dtype="float64", nonlinear=False, T=4, store="both",
+                          pass_seq=PASS_SEQ, t_mode="none", vary_qr=False, fail_at=2, fail_kind="callback-f", fail_skip=3,
+                          fork_at=1, fork_kind="state_dict", k_seq=["none", 1.5, 0, "none"]))
+    # special sizes: p = 2n+1 (number of sigma points), n = m = p = 3, n = 1 with p = 3, all ones
+    for flt in ("ekf", "ukf"):
+        for (nn, mm, pp_) in ((2, 2, 5), (3, 3, 3), (1, 3, 3), (1, 1, 1), (6, 6, 6)):
+            specs.append(dict(NICE, filter=flt, n=nn, m=mm, p=pp_, dtype="float64", nonlinear=(nn == 3), T=2, store="none",
+                              t_mode="none", vary_qr=False, k_seq=[1, "none"]))
     for sp in specs:
+        sp.setdefault("fail_at", None)
+        sp.setdefault("fork_at", None)
         sp.setdefault("arg_mode", "fresh")
         sp.setdefault("extreme", "-")
         sp.setdefault("alias", False)
@@ -227,11 +257,16 @@ def corpus_runs(quick: bool):
 
 def corpus_pf():
     out = []
-    for i, (n, N, nl, am) in enumerate([(2, 17, False, "inplace"), (3, 8, True, "views"), (1, 1, False, "fresh"),
-                                        (2, 40, False, "views")]):
-        c = gen_pf(random.Random(130200 + i), False, True, {"dtype": "float64", "nonlinear": nl, "N": N})
-        c.update(seed=130200 + i, n=n, m=1, p=2, T=3, qr_mode="both" if i % 2 else "call", corpus=i, arg_mode=am,
-                 qr_scales=[1.0, 2.0, 0.5])
+    table = [(2, 17, False, "inplace", "none", None, None), (3, 8, True, "views", "both", None, None),
+             (1, 1, False, "fresh", "none", None, None), (2, 40, False, "views", "both", None, None),
+             (2, 17, False, "fresh", "both", None, None), (3, 5, True, "fresh", "Q", None, None),
+             (2, 8, False, "fresh", "R", None, None), (2, 17, True, "fresh", "both", 1, 2),
+             (3, 3, False, "fresh", "none", None, None), (2, 2, False, "fresh", "none", None, None)]   # N = n
+    for i, (n, N, nl, am, stv, fail_at, fork_at) in enumerate(table):
+        c = gen_pf(random.Random(130200 + i), False, True, {"dtype": "float64", "nonlinear": nl, "N": N, "store": stv,
+                                                            "fail_at": fail_at, "fork_at": fork_at})
+        c.update(seed=130200 + i, n=n, m=1, p=2, T=4 if i >= 4 else 3, corpus=i, arg_mode=am, qr_scales=[1.0, 2.0, 0.5, 1.0],
+                 pass_seq=PASS_SEQ, timevar=True)
         out.append(c)
     return out
 
@@ -276,6 +311,11 @@ def materialise_run(c):
         st["positional"] = rng.random() < 0.3
         st["k_type"] = rng.choice(["python", "python", "tensor"])
         st["grad"] = (rng.choice(GRADS) if c.get("grad", "mixed") == "mixed" else c["grad"])
+        if st["grad"] == "requires_grad" and c.get("fork_kind") == "deepcopy" and c.get("fork_at") is not None \
+                and j < c["fork_at"]:
+            # observation on the unchanged tree: after a call with requires_grad operands the NLS system keeps non-leaf
+            # reference tensors (_ref_f, _ref_g) and copy.deepcopy of the filter raises; only copies that work are used
+            st["grad"] = "no_grad"
         d["steps"].append(st)
     d["t_reset"] = rng.choice([1, 3, 7]) if c["t_mode"] == "reset" else 0
     return d
@@ -425,9 +465,6 @@ def guarded_call(filt, mon, name, args, kw, st, is_ukf):
         if gm == "no_grad":
             with torch.no_grad():
                 out = mon.call(name, filt, *pos, **kw)
-        elif gm == "inference":
-            with torch.inference_mode():
-                out = mon.call(name, filt, *pos, **kw)
         else:
             out = mon.call(name, filt, *pos, **kw)
         return out, None
@@ -468,6 +505,7 @@ def run_gen(ctx: Ctx, c, lines, metas, verbose=False):
     ctx.count(f"run.store={stv}")
     original = None          # (filter, model, ctorQ, ctorR) while a copy of the object is taking the calls
     fork_left = 0
+    held = None              # a result the caller keeps across the next call
     feed = Feeder(mode, dt)
     ctx.count(f"run.args={mode}")
     xl, Pl = d["x0"], d["P0"]
@@ -563,24 +601,17 @@ def run_gen(ctx: Ctx, c, lines, metas, verbose=False):
         if alias_ux or alias_qr:
             ctx.count("run.same-tensor-as-two-arguments")
         stc = dict(st)
-        if stc.get("grad") == "inference" and not is_ukf:
-            stc["grad"] = "no_grad"      # EKF needs autograd for its Jacobians; inference mode is probed separately
         if stc.get("grad") == "requires_grad" and mode == "views" and c.get("alias"):
             stc["grad"] = "plain"
         ctx.count(f"run.grad={stc.get('grad', 'plain')}")
         clock0 = float(model.systime)
         # ---- a failing call in the middle of the history (kind 11): it must leave the objects as they were
         if c.get("fail_at") == j:
-            fk = c.get("fail_kind", "bad-y")
-            bad_args = [x, y, u, P]
-            if fk == "bad-y":
-                bad_args[1] = torch.zeros(p + 2, dtype=dt)
-            elif fk == "bad-P":
-                bad_args[3] = torch.zeros(n + 1, n + 1, dtype=dt)
-            else:
-                model.fail_next = fk[-1]
-            _, ferr = guarded_call(filt, mon, f"{c['filter']}.forward", bad_args, kw, dict(stc, positional=False), is_ukf)
-            model.fail_next = ""
+            fk = c.get("fail_kind", "callback-g")          # a valid use: the user's system function raises once
+            # at which of its evaluations the callback raises: early (reference point), in the middle (Jacobians), late
+            model.fail_next, model.fail_skip = fk[-1], c.get("fail_skip", (c["seed"] + j) % 4)
+            _, ferr = guarded_call(filt, mon, f"{c['filter']}.forward", [x, y, u, P], kw, dict(stc, positional=False), is_ukf)
+            model.fail_next, model.fail_skip = "", 0
             ctx.count(f"run.failing-call.{fk}.{'raised' if ferr else 'returned'}")
             if ctorQ is not None and not torch.equal(filt.Q, T(ctorQl)) or ctorR is not None and not torch.equal(filt.R, T(ctorRl)):
                 ctx.fail(stepcase, f"atomic: a failing {c['filter']} call ({fk}) changed the filter's stored Q/R")
@@ -643,12 +674,17 @@ def run_gen(ctx: Ctx, c, lines, metas, verbose=False):
         if any(sz > 1 and sd == 0 for sz, sd in zip(P2.shape, P2.stride())) or any(sz > 1 and sd == 0 for sz, sd in zip(x2.shape, x2.stride())):
             ctx.fail(stepcase, f"output: {c['filter']} call {j} returned an expanded (stride-0) tensor")
         x2, P2 = x2.clone(), P2.clone()
-        if stc.get("grad") != "inference":
+        if held is not None and not (torch.equal(held[0].detach(), held[2]) and torch.equal(held[1].detach(), held[3])):
+            ctx.fail(stepcase, f"output-alias: the result the caller still holds from {c['filter']} call {j - 1} changed during call {j}")
+        held = None
+        if j % 2 == 0:       # the caller overwrites the result in place ...
             out[0].detach().mul_(-3.0).add_(7.0)
             out[1].detach().zero_()
             for nm, arg, vals in (("x", x, xl), ("P", P, Pl), ("y", y, yl), ("u", u, ul)):
                 if not torch.equal(arg.detach(), T(vals)):
                     ctx.fail(stepcase, f"output-alias: overwriting the result of {c['filter']} call {j} changed the caller's `{nm}`")
+        else:                # ... or keeps it untouched across the next call
+            held = (out[0], out[1], x2.clone(), P2.clone())
         # ---- object / argument hygiene: nothing the caller holds may change, public state of the objects stays as set
         for nm in feed.touched():
             ctx.fail(stepcase, f"mutation: {c['filter']} call {j} wrote into the caller's buffer behind argument `{nm}` (a view)")
@@ -876,6 +912,8 @@ def materialise_pf(c):
         st["pass_qr"] = st["pass_q"] and st["pass_r"]
         st["qr_scale"] = rng.choice([1.0, 2.0, 0.5])       # the per-call Q, R differ from call to call
         st["grad"] = rng.choice(GRADS)
+        if st["grad"] == "requires_grad" and c.get("fork_at") is not None and j < c["fork_at"]:
+            st["grad"] = "no_grad"          # see materialise_run: deepcopy works only before any requires_grad call
         st["positional"] = rng.random() < 0.3
     for j, st in enumerate(d["steps"]):
         if c.get("qr_scales"):
@@ -942,6 +980,7 @@ def run_pf_corr(ctx: Ctx, c, lines, metas):
     stv = store_of(c)
     ctx.count(f"pf-corr.store={stv}")
     original = None
+    held = None
     for j, st in enumerate(d["steps"]):
         if original is not None:            # the copy took one call; the original object continues
             if float(original[1].systime) != original[2]:
@@ -971,15 +1010,17 @@ def run_pf_corr(ctx: Ctx, c, lines, metas):
         # ---- a failing call (measurement of the wrong length) must leave the objects — incl. the system clock — as they were
         if c.get("fail_at") == j:
             clock0 = float(model.systime)
-            _, ferr = guarded_call(pf, mon, "pf.forward", [x, torch.zeros(p + 2, dtype=dt), u, P], kw, {"grad": "plain"}, False)
+            model.fail_next = "g" if j % 2 else "f"       # a valid use: the user's system function raises once
+            model.fail_skip = (c["seed"] + j) % 2          # at the reference point or inside model(xp, u)
+            _, ferr = guarded_call(pf, mon, "pf.forward", [x, y, u, P], kw, {"grad": "plain"}, False)
+            model.fail_next, model.fail_skip = "", 0
             ctx.count(f"pf-corr.failing-call.{'raised' if ferr else 'returned'}")
-            if ferr and float(model.systime) != clock0:
-                ctx.fail(dict(stepcase, failing_call="bad-y"),
-                         f"atomic: a PF call that raised ({ferr[:40]}) moved the system clock from {clock0} to "
-                         f"{float(model.systime)}; the next call on a time-dependent system differs from the history without it",
-                         known_matcher=lambda kf, cs: kf.get("predicate") == "pf_clock_not_atomic" and cs.get("failing_call") == "bad-y")
-                model.systime = clock0          # continue the history as if the failed call had not happened
-            t_eff = float(model.systime)
+            if float(model.systime) != clock0:
+                ctx.fail(stepcase, f"atomic: a PF call in which the user's system function raised moved the system clock from "
+                                   f"{clock0} to {float(model.systime)}")
+            if pf.particles != N or (stv in ("Q", "both") and not torch.equal(pf.Q, T(d["Qdecoy"]))) or \
+                    (stv in ("R", "both") and not torch.equal(pf.R, T(d["Rdecoy"]))):
+                ctx.fail(stepcase, "atomic: a failing PF call changed the filter's stored Q/R or particle count")
         torch.manual_seed(st["torch_seed"])
         pf.rec = {}
         with RandRecorder() as rr:
@@ -992,7 +1033,10 @@ def run_pf_corr(ctx: Ctx, c, lines, metas):
             ctx.fail(stepcase, f"output: PF call {j} {bad}")
             break
         x2, P2 = (o.detach().clone() for o in out)
-        if gm != "inference":          # overwriting the result must not reach the arguments or a later call (kind 15)
+        if held is not None and not (torch.equal(held[0].detach(), held[2]) and torch.equal(held[1].detach(), held[3])):
+            ctx.fail(stepcase, f"output-alias: the result the caller still holds from PF call {j - 1} changed during call {j}")
+        held = (out[0], out[1], x2.clone(), P2.clone()) if j % 2 else None
+        if j % 2 == 0:          # overwriting the result must not reach the arguments or a later call (kind 15)
             out[0].detach().mul_(-3.0).add_(7.0)
             out[1].detach().zero_()
             for nm, arg, vals in (("x", x, xl), ("P", P, Pl), ("y", y, yl), ("u", u, st["u"])):
@@ -1278,7 +1322,7 @@ def run(ctx: Ctx):
     t0 = time.time()
     torch.set_num_threads(1)      # tiny matrices: thread hand-off costs more than the work
     lines, metas = [], []
-    n_runs = ctx.pick(100, 400)
+    n_runs = ctx.pick(70, 400)
     forced = [{"filter": "ekf", "nonlinear": False}, {"filter": "ukf", "nonlinear": False},
               {"filter": "ekf", "nonlinear": True}, {"filter": "ukf", "nonlinear": True},
               {"filter": "ukf", "nonlinear": False, "k": "none"}, {"filter": "ukf", "nonlinear": False, "k": "-n+0.5"},
@@ -1288,19 +1332,22 @@ def run(ctx: Ctx):
     # non-linear members: one short non-linear run per k choice
     forced += [{"filter": "ukf", "nonlinear": True, "k": kc, "T": 2, "dtype": "float64", "vary_k": False, "extreme": "-"}
                for kc in K_CHOICES]
+    gens = []
     for c in corpus_runs(ctx.quick):
         ctx.count("corpus.run")
-        run_one(ctx, c, lines, metas)
+        gens.append(run_gen(ctx, c, lines, metas))
     for i in range(n_runs):
         c = gen_run(rng, ctx.quick, forced[i] if i < len(forced) else None)
-        run_one(ctx, c, lines, metas)
+        gens.append(run_gen(ctx, c, lines, metas))
+    # calls on different objects (EKF / UKF, different dimensions and dtypes) alternate in one process (kind 17)
+    interleave(gens, 3)
     t1 = time.time()
     # PF with recorded draws
     plines, pmetas = [], []
     for c in corpus_pf():
         ctx.count("corpus.pf")
         run_pf_corr(ctx, c, plines, pmetas)
-    for i in range(ctx.pick(30, 120)):
+    for i in range(ctx.pick(24, 120)):
         run_pf_corr(ctx, gen_pf(rng, False, ctx.quick), plines, pmetas)
     t2 = time.time()
     # one batch through the model (fans out over processes), heavy PF lines first
